@@ -5,7 +5,11 @@ Real `meson setup` (ninja backend, mini-ninja shim) on
   * deliberate-collision variants (must be rejected with a MesonException, or at least leave one producer/path),
   * directed probes (among them: every documented way a target becomes built by default, expected flag =
     gen_c04.documented_default; a subproject first configured inside an optional subproject that fails and is
-    then used by the parent),
+    then used by the parent; extract_objects()/extract_all_objects() with every kind of argument - strings,
+    files, configure_file results, whole custom targets, custom-target indexes, generator lists - as subsets
+    (non-unity) and as all sources (unity off and on); names with a backslash),
+  * collisions include spellings that only the Ninja writer / ninja itself make equal to another target's path
+    (backslash -> slash, ./, //, x/..) in target names, custom_target outputs, name_prefix and name_suffix,
   * the repository corpus (test cases/common, test cases/unit; copies; not configurable => skipped, counted).
 build.ninja is parsed by mini-ninja (independent implementation) and checked for: parse / defined rules, unique
 producers, acyclicity, closed inputs (exist on disk right after configuration or produced), `default all`,
@@ -47,6 +51,15 @@ NESTED_MECH = 'nested-subproject-of-failed-optional-subproject-reused'
 NESTED_INPUT = NESTED_MECH + ':statement-input'
 NESTED_PREREQ = NESTED_MECH + ':test-prerequisite'
 NESTED_OWN = NESTED_MECH + ':own-target-dropped'
+# two statements whose outputs are DIFFERENT strings for meson (check_outputs compares them unconverted) but the
+# same path once NinjaBuildElement.write() has replaced every backslash by a slash; the suffix says where the
+# backslash came from
+RESPELL_MECH = 'two-producers-for-one-path:backslash-written-as-slash'
+RESPELL_AFFIX = RESPELL_MECH + ':from-name-prefix-or-suffix'
+RESPELL_NAME = RESPELL_MECH + ':from-target-name-or-output'
+# an input that is missing under the written (slash) spelling but exists on disk under the backslash spelling meson
+# used when it created the file at configure time (unity sources in the private directory of such a target)
+RESPELL_INPUT = 'input-exists-only-under-backslash-spelling'
 SCRATCH_ROOT = ''   # set in the parent before forking workers; removed by common at exit
 
 
@@ -85,6 +98,31 @@ def orphan_paths(rec: T.Optional[dict]) -> T.Dict[str, str]:
         for p in o.get('dropped_paths', []):
             res[norm(p)] = o['name']
     return res
+
+
+def respelling_origin(rec: T.Optional[dict], p: str) -> T.Optional[str]:
+    """Classifier for a path p with two producers: were the two statements handed to the writer under different
+    spellings that only the writer's backslash -> slash replacement makes equal, and where does the backslash come
+    from?  None: same spelling (or no record)."""
+    if not rec:
+        return None
+    raw = set()
+    for w in rec.get('written', []):
+        for x in list(w[0]) + list(w[1]):
+            if norm(x) == p:
+                raw.add(x)
+    bs = [x for x in raw if chr(92) in x]
+    if len(raw) < 2 or not bs:
+        return None
+    names = rec.get('target_names') or {}
+    for tid, tn, default, outs in rec.get('targets', []):
+        for o in outs:
+            if chr(92) in o and any(x == o or x.startswith(o + '.p/') for x in bs):
+                nm = names.get(tid) or ['', '', '']
+                if chr(92) in nm[1] or chr(92) in nm[2]:
+                    return RESPELL_AFFIX
+                return RESPELL_NAME
+    return RESPELL_MECH
 
 
 class Out:
@@ -149,9 +187,13 @@ def check_manifest(out: Out, bdir: str, rec: T.Optional[dict], cfg: dict,
     out.count('monitor:unique-producer', sum(len(e.all_outputs) for e in m.edges))
     if m.duplicate_outputs:
         p, i, j = m.duplicate_outputs[0]
-        out.violation(PIPE_MECH if has_pipe else 'two-producers-for-one-path',
+        out.count('monitor:duplicate-spelling-classifier')
+        respell = None if has_pipe else respelling_origin(rec, p)
+        out.violation(PIPE_MECH if has_pipe else respell or 'two-producers-for-one-path',
                       {'path': p, 'first': repr(m.edges[i]), 'second': repr(m.edges[j]),
-                       'n_duplicates': len(m.duplicate_outputs)})
+                       'n_duplicates': len(m.duplicate_outputs),
+                       **({'why': 'check_outputs() compares the unconverted strings, write() replaces every '
+                                  'backslash by a slash'} if respell else {})})
     # acyclic
     out.count('monitor:acyclic')
     cyc = m.find_cycle()
@@ -200,7 +242,26 @@ def check_manifest(out: Out, bdir: str, rec: T.Optional[dict], cfg: dict,
         # optional subproject that failed: the subproject stays registered and its objects are handed out again,
         # but its targets went away with the failed subproject's Build copy
         nested = [x for x in missing if x not in flat_gen and x not in unity_ext and x[0] in orph]
-        rest = [x for x in missing if x not in flat_gen and x not in unity_ext and x not in nested]
+        # classifier 4: meson created the file at configure time under a name with a backslash (a file name
+        # character on POSIX); the writer replaced it by a slash
+        raw_in: T.Dict[str, T.Set[str]] = {}
+        if rec and any(chr(92) in p for w in rec['written'] for part in (w[3], w[4], w[5]) for p in part):
+            for w in rec['written']:
+                for part in (w[3], w[4], w[5]):
+                    for x in part:
+                        if chr(92) in x:
+                            raw_in.setdefault(norm(x), set()).add(x)
+        respelled = [x for x in missing if x not in flat_gen and x not in unity_ext and x not in nested and
+                     any(os.path.lexists(os.path.join(bdir, r)) for r in raw_in.get(x[0], ()))]
+        rest = [x for x in missing if x not in flat_gen and x not in unity_ext and x not in nested and
+                x not in respelled]
+        if respelled:
+            names = (rec or {}).get('target_names') or {}
+            affix = any(chr(92) in n[1] or chr(92) in n[2] for n in names.values())
+            named = any(chr(92) in n[0] for n in names.values())
+            out.violation(RESPELL_INPUT + (':from-name-prefix-or-suffix' if affix and not named else ''),
+                          {'missing': respelled[:8], 'n_missing': len(respelled),
+                           'exists_as': [sorted(raw_in[x[0]])[0] for x in respelled[:8]]})
         if flat_gen:
             out.violation(FLATGEN_MECH, {'missing': flat_gen[:8], 'n_missing': len(flat_gen),
                                          'produced_as': [flat_twin(x[0]) for x in flat_gen[:8]]})
@@ -452,6 +513,8 @@ def _run_case(case: dict, out: Out, root: str) -> None:
     if desc is not None:
         out.features = list(desc.get('features', []))
     collision = desc.get('collision') if desc else None
+    if collision is not None and collision['kind'].startswith('normalised-spelling:'):
+        out.count('normalised_spelling_collisions_tried')
 
     # ---- outcome classes -------------------------------------------------------------------
     if not configured:
@@ -1029,7 +1092,150 @@ def probe_nested_reuse() -> T.Tuple[dict, dict]:
                    'failed_subprojects': failed, 'post': post}
 
 
+_EXTRACT_HEAD = (_HEAD + "py = find_program('python3')\n"
+                 "gen2 = custom_target('two c', output: ['ga.c', 'gb.c'], command: [py, '-c', 'pass'])\n"
+                 "gen3 = custom_target('c and h', output: ['gc.c', 'gc.h'], command: [py, '-c', 'pass'])\n"
+                 "gen4 = custom_target('three c', output: ['gd.c', 'ge.c', 'gf.c'], command: [py, '-c', 'pass'])\n"
+                 "gen5 = custom_target('c h c', output: ['gg.c', 'gg.h', 'gh.c'], command: [py, '-c', 'pass'])\n"
+                 "g = generator(py, output: '@BASENAME@.c', arguments: ['-c', 'pass', '@INPUT@', '@OUTPUT@'])\n"
+                 "g2 = generator(py, output: ['@BASENAME@_a.c', '@BASENAME@_b.c', '@BASENAME@.h'], arguments: ['-c', 'pass', '@INPUT@', '@OUTPUT0@'])\n"
+                 "gl = g.process('x.in', 'y.in')\n"
+                 "gl2 = g2.process('z.in')\n"
+                 "cf = configure_file(output: 'conf.c', configuration: {'A': 1})\n"
+                 # an index must be the very object the library was given (extract_objects compares identities)
+                 "g2_0 = gen2[0]\ng2_1 = gen2[1]\ng3_0 = gen3[0]\ng4_1 = gen4[1]\ng5_0 = gen5[0]\ng5_2 = gen5[2]\n")
+_EXTRACT_FILES = {'m.c': _MAIN, 'p.c': 'int p(void) { return 0; }\n', 'q.c': 'int q(void) { return 0; }\n',
+                  'r.c': 'int r(void) { return 0; }\n', 'x.in': 'x\n', 'y.in': 'y\n', 'z.in': 'z\n',
+                  'sub/m.c': _MAIN}
+
+
+def _extract_post(feature: str) -> T.Callable[[Out, mn.Manifest, str, T.Optional[dict]], None]:
+    def post(out: Out, m: mn.Manifest, bdir: str, rec: T.Optional[dict]) -> None:
+        # evidence that the closedness monitor judged objects taken over from another target: inputs of link /
+        # archive statements that live in the private directory of a DIFFERENT target
+        n = 0
+        consumers = 0
+        for e in m.edges:
+            if not e.rule.name.endswith(('_LINKER', '_LINKER_RSP')) or not e.outputs:
+                continue
+            own = e.outputs[0] + '.p/'
+            foreign = [i for i in e.inputs if i.endswith('.o') and not i.startswith(own)]
+            n += len(foreign)
+            consumers += 1 if foreign else 0
+        out.count('extracted_object_refs', n)
+        out.count('extracted_object_consumers', consumers)
+        out.count(feature)
+    return post
+
+
+def probe_extract_objects() -> T.Tuple[dict, dict]:
+    """extract_objects() with every kind of argument, each naming a SUBSET of the library's sources: a string, a
+    files() object, a configure_file() result, a whole custom target (all compilable / with a header), an index of
+    a custom target with >= 2 compilable outputs (the library having been given only that index, both indexes, or
+    the whole custom target), several indexes at once, generator lists (one and several outputs per input);
+    extract_all_objects() recursive and not, over a library that itself carries extracted objects; libraries of
+    every kind and an executable as the extractee; consumers that are executables, libraries, in a sub directory.
+    Every object named on a consumer's link / archive line must be produced by some statement (monitor:
+    input-closed).  Always configured with --unity=off (under unity meson documents that subsets are rejected)."""
+    files = dict(_EXTRACT_FILES)
+    files['meson.build'] = _EXTRACT_HEAD + (
+        "l_idx = static_library('l idx', g2_0)\n"
+        "executable('e idx', 'm.c', objects: l_idx.extract_objects(g2_0))\n"
+        "l_idx2 = static_library('l idx2', g2_0, g2_1, 'p.c')\n"
+        "executable('e idx2', 'm.c', objects: l_idx2.extract_objects(g2_1))\n"
+        "executable('e idx2b', 'm.c', objects: l_idx2.extract_objects(g2_1, g2_0))\n"
+        "l_idx3 = shared_library('l idx3', g5_2, 'p.c')\n"
+        "executable('e idx3', 'm.c', objects: l_idx3.extract_objects(g5_2))\n"
+        "l_idx4 = both_libraries('l idx4', g5_0, g5_2, g4_1)\n"
+        "executable('e idx4', 'm.c', objects: l_idx4.extract_objects(g5_0, g4_1))\n"
+        "x_idx = executable('x idx', 'm.c', g4_1)\n"
+        "static_library('from exe', 'p.c', objects: x_idx.extract_objects(g4_1))\n"
+        "l_whole = static_library('l whole', gen4, 'p.c')\n"
+        "executable('e whole idx', 'm.c', objects: l_whole.extract_objects(g4_1))\n"
+        "executable('e whole', 'm.c', objects: l_whole.extract_objects(gen4))\n"
+        "l_h = shared_library('l h', gen3, gen5, 'p.c')\n"
+        "executable('e h', 'm.c', objects: l_h.extract_objects(gen3))\n"
+        "executable('e h idx', 'm.c', objects: l_h.extract_objects(g3_0))\n"
+        "executable('e h5', 'm.c', objects: l_h.extract_objects(gen5))\n"
+        "executable('e h5 idx', 'm.c', objects: l_h.extract_objects(g5_2))\n"
+        "l_g = static_library('l g', gl, gl2, 'p.c', files('q.c'), cf)\n"
+        "executable('e g', 'm.c', objects: l_g.extract_objects(gl))\n"
+        "executable('e g2', 'm.c', objects: l_g.extract_objects(gl2))\n"
+        "executable('e str', 'm.c', objects: l_g.extract_objects('p.c'))\n"
+        "executable('e file', 'm.c', objects: l_g.extract_objects(files('q.c')))\n"
+        "executable('e cf', 'm.c', objects: l_g.extract_objects(cf))\n"
+        "executable('e mixed', 'm.c', objects: l_g.extract_objects('p.c', gl, cf))\n"
+        "executable('e all', 'm.c', objects: l_g.extract_all_objects(recursive: false))\n"
+        "l_r = static_library('l r', 'r.c', objects: [l_idx.extract_objects(g2_0), l_idx2.extract_objects('p.c')])\n"
+        "executable('e rec', 'm.c', objects: l_r.extract_all_objects(recursive: true))\n"
+        "executable('e nonrec', 'm.c', objects: l_r.extract_all_objects(recursive: false))\n"
+        "shared_library('s rec', objects: l_r.extract_all_objects(recursive: true))\n"
+        "subdir('sub')\n")
+    files['sub/meson.build'] = (
+        "l_sub = static_library('l sub', g2_1, gen4)\n"
+        "executable('e sub', 'm.c', objects: [l_sub.extract_objects(g2_1), l_idx.extract_objects(g2_0), l_whole.extract_objects(g4_1)])\n")
+    return files, {'targets': [], 'tests': [], 'features': ['probe:extract-objects-subsets'],
+                   'post': _extract_post('extract_probe:subsets')}
+
+
+def probe_extract_objects_full() -> T.Tuple[dict, dict]:
+    """extract_objects() naming ALL sources of the library (the only form documented to work in unity builds) with
+    every kind of argument, and extract_all_objects(); libraries with 1, 2, 3 and 9 compilable sources (unity_size
+    4: one to three unity files).  Configured with --unity=off and --unity=on."""
+    files = dict(_EXTRACT_FILES)
+    files['meson.build'] = _EXTRACT_HEAD + (
+        "l_idx = static_library('l idx', g2_0)\n"
+        "executable('e idx', 'm.c', objects: l_idx.extract_objects(g2_0))\n"
+        "l_both = static_library('l both', g2_0, g2_1)\n"
+        "executable('e both', 'm.c', objects: l_both.extract_objects(g2_1, g2_0))\n"
+        "l_idx5 = shared_library('l idx5', g5_2, g5_0)\n"
+        "executable('e idx5', 'm.c', objects: l_idx5.extract_objects(g5_0, g5_2))\n"
+        "l_whole = static_library('l whole', gen4)\n"
+        "executable('e whole', 'm.c', objects: l_whole.extract_objects(gen4))\n"
+        "l_h = shared_library('l h', gen3)\n"
+        "executable('e h', 'm.c', objects: l_h.extract_objects(gen3))\n"
+        "l_g = static_library('l g', gl)\n"
+        "executable('e g', 'm.c', objects: l_g.extract_objects(gl))\n"
+        "l_g2 = both_libraries('l g2', gl2)\n"
+        "executable('e g2', 'm.c', objects: l_g2.extract_objects(gl2))\n"
+        "l_mix = static_library('l mix', gl, 'p.c', files('q.c'), cf, gen4, g2_1)\n"
+        "executable('e mix', 'm.c', objects: l_mix.extract_objects(gl, 'p.c', files('q.c'), cf, gen4, g2_1))\n"
+        "executable('e mix all', 'm.c', objects: l_mix.extract_all_objects(recursive: false))\n"
+        "l_r = static_library('l r', 'r.c', objects: l_idx.extract_objects(g2_0))\n"
+        "executable('e rec', 'm.c', objects: l_r.extract_all_objects(recursive: true))\n"
+        "executable('e nonrec', 'm.c', objects: l_r.extract_all_objects(recursive: false))\n"
+        "subdir('sub')\n")
+    files['sub/meson.build'] = (
+        "l_sub = static_library('l sub', g2_1, gen4)\n"
+        "executable('e sub', 'm.c', objects: [l_sub.extract_objects(g2_1, gen4), l_idx.extract_objects(g2_0)])\n")
+    return files, {'targets': [], 'tests': [], 'features': ['probe:extract-objects-all-sources'],
+                   'post': _extract_post('extract_probe:all-sources')}
+
+
+def probe_backslash_names() -> T.Tuple[dict, dict]:
+    """Names with a backslash and NO second target at the slash spelling: target names, custom target outputs,
+    name_prefix / name_suffix.  Either rejected, or every structural monitor applies to what was written."""
+    files = {'meson.build': _HEAD + "py = find_program('python3')\n"
+             "executable('bs\\\\exe', 'm.c')\n"
+             "static_library('bs\\\\lib', 'm.c')\n"
+             "custom_target('bs ct', output: ['bsd\\\\o1.txt', 'plain.txt'], command: [py, '-c', 'pass'], build_by_default: true)\n",
+             'm.c': _MAIN}
+    return files, {'targets': [], 'tests': [], 'features': ['probe:backslash-names'], 'may_reject': True}
+
+
+def probe_backslash_affixes() -> T.Tuple[dict, dict]:
+    files = {'meson.build': _HEAD +
+             "e = executable('afx', 'm.c', name_suffix: 'x\\\\y', build_by_default: false)\n"
+             "l = static_library('afx', 'm.c', name_prefix: 'pre\\\\fix')\n"
+             "test('afx', e)\n", 'm.c': _MAIN}
+    return files, {'targets': [], 'tests': [], 'features': ['probe:backslash-name-affixes'], 'may_reject': True}
+
+
 PROBES: T.Dict[str, T.Callable[[], T.Tuple[dict, dict]]] = {
+    'extract-objects': probe_extract_objects,
+    'extract-objects-full': probe_extract_objects_full,
+    'backslash-names': probe_backslash_names,
+    'backslash-affixes': probe_backslash_affixes,
     'default-matrix': probe_default_matrix,
     'nested-reuse': probe_nested_reuse,
     'local-programs': probe_local_programs,
@@ -1089,11 +1295,20 @@ def plan(chk: common.Check) -> T.List[dict]:
         for s in range(1 if quick else 6):
             for _ in range(1 if quick else 3):
                 l, u, d = rng.choice(CELLS)
+                if kind in gen_c04.MIRROR_ONLY_KINDS:
+                    l = 'mirror'      # under flat layout the pair does not coincide
                 cases.append({'type': 'collision', 'kind': kind, 'seed': f'{chk.seed}:{kind}:{s}',
                               'cfg': {'layout': l, 'unity': u, 'default_library': d}})
     # directed probes (every run)
     for name in PROBES:
         cfgs = [('mirror', 'off', 'shared')] if quick else [('mirror', 'off', 'shared'), ('flat', 'on', 'both')]
+        if name == 'extract-objects-full' and quick:
+            cfgs = [('mirror', 'off', 'shared'), ('mirror', 'on', 'static')]
+        if name == 'backslash-affixes':
+            # --unity=on: the directed probe of the known finding input-exists-only-under-backslash-spelling
+            cfgs = [('mirror', 'off', 'shared'), ('mirror', 'on', 'static')]
+        if name == 'extract-objects' and quick:
+            cfgs = [('mirror', 'off', 'shared'), ('flat', 'off', 'both')]
         for l, u, d in cfgs:
             rsps = [None]
             if name == 'same-name-prereqs':
@@ -1104,6 +1319,10 @@ def plan(chk: common.Check) -> T.List[dict]:
                 l = 'flat'
             if name == 'rsp':
                 rsps = [0, 200]
+            if name == 'extract-objects':
+                u = 'off'
+            if name == 'extract-objects-full':
+                u = 'on' if (l, u, d) != cfgs[0] else 'off'
             for rsp in rsps:
                 cases.append({'type': 'probe', 'name': name, 'cfg': {'layout': l, 'unity': u, 'default_library': d},
                               'rsp': rsp})
@@ -1216,6 +1435,13 @@ def main() -> int:
     chk.require('nested_reuse_pairs', 4)
     chk.require('nested_reuse_controls', 2)
     chk.require('monitor:orphaned-subprojects-classifier', 50 if quick else 500)
+    # objects taken over with extract_objects()/extract_all_objects() (every argument kind, unity off and on) were
+    # judged by the closedness monitor; spellings that the writer normalises were tried as collisions
+    chk.require('extract_probe:subsets', 1)
+    chk.require('extract_probe:all-sources', 2)
+    chk.require('extracted_object_refs', 100)
+    chk.require('extracted_object_consumers', 50)
+    chk.require('normalised_spelling_collisions_tried', len(gen_c04.MIRROR_ONLY_KINDS))
     return chk.finish(
         rule='generated project (seeded target graph: kinds, link chains, generated sources, subdirs, subproject, '
              'tests) x configuration cell (layout, unity, default_library, rsp threshold); distinct = structural '
